@@ -6,7 +6,7 @@ WT=/tmp/wt-$ID
 P=$WT/mutation/patch.diff
 [ -f "$P" ] || { echo "no patch"; exit 9; }
 PK="./p9/ ./vecnet/ ./linux/ ./fsimpl/localfs/ ./fsimpl/qids/ ./fsimpl/staticfs/ ./fsimpl/composefs/"
-DEMOPAT='(?i)mutation|zz|demo|C[0-9][0-9]'
+DEMOPAT='[Dd]emo|[Mm]utation|[Zz]z|C[0-9][0-9]'
 cd $WT || exit 9
 echo "== files changed by patch:"; grep '^+++' $P
 echo "== demo WITH change (expect FAIL):"
